@@ -10,6 +10,9 @@
 //	list  <k> <part> ... <part>   a list profile (`rps: [ {...}, {...} ]`): k parts, each one of the four kinds
 //	                              above written with its fields; built as the configuration hook does:
 //	                              schedule.NewCompositeConf{Nested: parts}
+//	fact  <K> <a|s|r> <one of the five kinds above>
+//	                              K products of the pool's rps FACTORY decoded from a configuration with
+//	                              rps-per-instance (see fact.go), each judged as the inner case on its own
 //	conc  <G> <rounds> [meet] <one of the five kinds above>
 //	                              the sequential observation of the inner case, then, `rounds` times:
 //	                              a fresh schedule that nobody Start()s (the engine never does: the
@@ -135,6 +138,9 @@ func runCase(c string) (res string) {
 	}()
 	if strings.HasPrefix(c, "conc ") {
 		return runConc(c)
+	}
+	if strings.HasPrefix(c, "fact ") {
+		return runFact(c)
 	}
 	s, ok := build(strings.Split(c, " "))
 	if !ok {
@@ -558,6 +564,8 @@ func gen(r *vh.Rand, tier string) []string {
 		}
 		out = append(out, fmt.Sprintf("conc %d %d %s%s", g, rounds, meet, listCase(parts)))
 	}
+	// K products of the pool's rps factory decoded from a configuration (fact.go)
+	out = append(out, genFact(r, tier)...)
 	// list profiles drained by one consumer (judged part by part against the integral)
 	for i := 0; i < n/10; i++ {
 		var parts []string
